@@ -1,30 +1,88 @@
 (* C12 at the generated-code level -- asynchronous decoding equals in-memory decoding for every delivery
    schedule: the emitted decode_async (GenAsync.gen_decode_async: no TLengthProtocol calls, push-based lists, no
    unknown-field retention, TAsyncInputProtocol::skip) against the emitted decode (Gen.gen_decode), on top of the
-   asynchronous primitive readers of PV.Thrift.Async (primitive level: PV.Properties.C12).  A stream is modelled
-   by the chunks it delivers; tokio's read_exact / read_u8 contracts (trusted base) make every primitive read a
-   function of the concatenation of the chunks, whatever the chunk boundaries and however many Pending wake-ups
-   occur in between.  Statements only; lemmas in Proofs/AsyncGenP.v.  Every schema, every declared type, binary /
+   asynchronous primitive readers of PV.Thrift.Async (primitive level: PV.Properties.C12).  A stream is a list of
+   delivery events (GenEvents.v); the primitive reads are written through poll_read and proved to be functions of the
+   delivered bytes, whatever the chunk boundaries and however many Pending wake-ups occur in between (below);
+   gen_decode_async itself is written over the delivered bytes.  Statements only; lemmas in Proofs/AsyncGenP.v.  Every schema, every declared type, binary /
    binary-LE / compact. *)
 From PV Require Import Proofs.HeaderP Proofs.PrefixP.
-From PVGen Require Import Gen GenSpec GenAsync ErrSpec Proofs.TotalGenP Proofs.AsyncGenP Proofs.AsyncErrGenP Proofs.AsyncFuelP.
+From PVGen Require Import Gen GenSpec GenAsync GenEvents ErrSpec Proofs.TotalGenP Proofs.AsyncGenP Proofs.AsyncErrGenP Proofs.AsyncFuelP Proofs.EventsP.
 Open Scope Z_scope.
 
-(* the result depends on the stream only through the bytes it delivers *)
-Theorem C12_gen_schedule_free : forall S p fuel t cs1 cs2,
-  concat cs1 = concat cs2 -> gen_decode_async_stream S p fuel t cs1 = gen_decode_async_stream S p fuel t cs2.
-Proof. exact gen_async_schedule_free. Qed.
-Print Assumptions C12_gen_schedule_free.
-
-(* read_exact's loop over the chunks hands out what a read of the concatenation hands out, or fails with
-   UnexpectedEof exactly when the concatenation is too short *)
-Theorem C12_read_exact_chunks : forall cs n,
-  match pull n cs with
-  | Some (a, cs') => take n (concat cs) = Some (a, concat cs')
-  | None => take n (concat cs) = None
+(* ---------- delivery schedules (GenEvents.v, Proofs/EventsP.v) ----------
+   A stream is a list of events: chunks of bytes, empty chunks, Pending tokens; the end of the list is EOF.  The primitive
+   reads are written THROUGH poll_read as tokio / rw_ext.rs write them (read_exact keeps what has arrived across Pending;
+   read_varint_async goes byte by byte; read_exact_to_vec has its small path and, above PREALLOC_LIMIT, Take::read_to_end
+   with ANY positive poll size).  Each returns what the read of the concatenated bytes returns -- value, error, and the bytes
+   consumed: the remaining events deliver exactly the remaining bytes (nothing is read past what was asked for). *)
+Theorem C12_read_exact_events : forall n es,
+  match ev_take n es with
+  | Some (a, es') => take n (bytes_of es) = Some (a, bytes_of es')
+  | None => take n (bytes_of es) = None
   end.
-Proof. exact pull_concat. Qed.
-Print Assumptions C12_read_exact_chunks.
+Proof. exact ev_take_spec. Qed.
+Print Assumptions C12_read_exact_events.
+
+Theorem C12_read_varint_events : forall m es,
+  match ev_varint m es with
+  | Ok (z, es') => a_varint m (mkS (bytes_of es) r0) = Ok (z, mkS (bytes_of es') r0)
+  | Err e => a_varint m (mkS (bytes_of es) r0) = Err e
+  | Panic st => a_varint m (mkS (bytes_of es) r0) = Panic st
+  end.
+Proof. exact ev_varint_spec. Qed.
+Print Assumptions C12_read_varint_events.
+
+Theorem C12_read_exact_to_vec_events : forall step len es,
+  match ev_read_exact_to_vec step len es with
+  | Some (a, es') => take len (bytes_of es) = Some (a, bytes_of es')
+  | None => take len (bytes_of es) = None
+  end.
+Proof. exact ev_read_exact_to_vec_spec. Qed.
+Print Assumptions C12_read_exact_to_vec_events.
+
+(* lifted: EVERY decoder that uses the stream only through these reads (sprog: any continuation-passing composition of
+   read_exact / read_varint_async / read_exact_to_vec, failures and returns; the reader context travels in the
+   continuations) gives, on every delivery schedule, what it gives on the delivered bytes: value, error, bytes left.
+   PARTIAL with respect to the property's "the emitted decode_async": gen_decode_async (GenAsync.v) is written over the
+   byte-level primitives of PV.Thrift.Async, which ARE these reads on the delivered bytes (run_b_take, run_b_varint; a_bytes =
+   length test + the same take); its transcription into an sprog -- which would make the statement about gen_decode_async
+   itself -- is not done. *)
+Theorem C12_gen_schedule_free_partial : forall A step (q : sprog A) es,
+  match run_e step q es with
+  | Ok (a, es') => run_b q (bytes_of es) = Ok (a, bytes_of es')
+  | Err e => run_b q (bytes_of es) = Err e
+  | Panic st => run_b q (bytes_of es) = Panic st
+  end.
+Proof. exact @run_schedule_free. Qed.
+Print Assumptions C12_gen_schedule_free_partial.
+
+(* any two schedules of the same bytes (any chunking, any number of Pending tokens anywhere, any poll sizes) *)
+Theorem C12_two_schedules_partial : forall A step1 step2 (q : sprog A) es1 es2, bytes_of es1 = bytes_of es2 ->
+  match run_e step1 q es1, run_e step2 q es2 with
+  | Ok (a1, r1), Ok (a2, r2) => a1 = a2 /\ bytes_of r1 = bytes_of r2
+  | Err e1, Err e2 => e1 = e2
+  | Panic s1, Panic s2 => s1 = s2
+  | _, _ => False
+  end.
+Proof. exact @run_two_schedules. Qed.
+Print Assumptions C12_two_schedules_partial.
+
+(* the seeded changes are variants of the event-level reads that FAIL the lemma: C12d (the buffer is rebuilt on every poll:
+   what arrived before a Pending is lost) returns bytes 2..3 where the stream's first two were asked for; C12b / C02d
+   (read_buf without the Take limit) consumes bytes that follow the value *)
+Theorem C12_lossy_read_refuted :
+  ev_read_exact_lossy (ev_fuel 2 es_x) 2 2 [] es_x = Some ([x02; x03], [Pend; Chunk [x04]]) /\
+  take 2 (bytes_of es_x) = Some ([x01; x02], [x03; x04]).
+Proof. exact lossy_read_refuted. Qed.
+Print Assumptions C12_lossy_read_refuted.
+
+Theorem C12_overread_refuted :
+  let es := [Chunk [x01; x02; x03; x04; x05; x06]] in
+  ev_read_vec_overread (fun _ => 4%nat) 2 es = Some ([x01; x02], []) /\
+  take 2 (bytes_of es) = Some ([x01; x02], [x03; x04; x05; x06]).
+Proof. exact overread_refuted. Qed.
+Print Assumptions C12_overread_refuted.
 
 (* same value, same stopping position: whenever the in-memory decoder returns [v] leaving state [s'] (in particular
    the unread rest of the buffer and the field-id context), the asynchronous decoder returns [v] and stops in the
